@@ -208,18 +208,18 @@ def comp1(ex, elt, g, fr, it0=None):
             # one-step recurrence, instantiated only between two existing terms (no matching loop)
             ex.assume(z3.ForAll([a, b], z3.Implies(z3.And(0 <= b, a == b + 1, a <= n),
                                                    cnt(a) == cnt(b) + z3.If(C(b), 1, 0)),
-                                patterns=[z3.MultiPattern(cnt(a), cnt(b))]))
+                                patterns=[z3.MultiPattern(cnt(a), cnt(b))], qid="comp_ax1"))
             ex.assume(z3.ForAll([a, b], z3.Implies(z3.And(0 <= a, a <= b, b <= n), cnt(a) <= cnt(b)),
-                                patterns=[z3.MultiPattern(cnt(a), cnt(b))]))
-            ex.assume(z3.ForAll([a], z3.Implies(z3.And(0 <= a, a <= n), z3.And(0 <= cnt(a), cnt(a) <= a, cnt(a) <= cnt(n))), patterns=[cnt(a)]))
+                                patterns=[z3.MultiPattern(cnt(a), cnt(b))], qid="comp_ax2"))
+            ex.assume(z3.ForAll([a], z3.Implies(z3.And(0 <= a, a <= n), z3.And(0 <= cnt(a), cnt(a) <= a, cnt(a) <= cnt(n))), patterns=[cnt(a)], qid="comp_ax3"))
             ex.assume(z3.ForAll([a], z3.Implies(z3.And(0 <= a, a < m),
                                                 z3.And(0 <= srcf(a), srcf(a) < n, C(srcf(a)), rank(srcf(a)) == a, cnt(srcf(a)) == a)),
-                                patterns=[srcf(a)]))
+                                patterns=[srcf(a)], qid="comp_ax4"))
             ex.assume(z3.ForAll([a], z3.Implies(z3.And(0 <= a, a < n, C(a)),
                                                 z3.And(0 <= rank(a), rank(a) < m, srcf(rank(a)) == a, rank(a) == cnt(a))),
-                                patterns=[rank(a)]))
+                                patterns=[rank(a)], qid="comp_ax5"))
             ex.assume(z3.ForAll([a, b], z3.Implies(z3.And(0 <= a, a < b, b < m), srcf(a) < srcf(b)),
-                                patterns=[z3.MultiPattern(srcf(a), srcf(b))]))
+                                patterns=[z3.MultiPattern(srcf(a), srcf(b))], qid="comp_ax6"))
             ex.assume(z3.And(0 <= m, m <= n))
         target_bind(ex, g.target, litem(ex, src_l, srcf(j)), fr)
         mark2 = len(ex.pc)
@@ -295,20 +295,20 @@ def comp2(ex, elt, gens, fr):
             x2, y2 = z3.Int(f"x2?{next(ex.cnt)}"), z3.Int(f"y2?{next(ex.cnt)}")
             ex.assume(z3.ForAll([x, x2], z3.Implies(z3.And(0 <= x2, x == x2 + 1, x <= m),
                                                     z3.And(acc(x) == acc(x2) + cin(x2, IL(x2)), IL(x2) >= 0)),
-                                patterns=[z3.MultiPattern(acc(x), acc(x2))]))
+                                patterns=[z3.MultiPattern(acc(x), acc(x2))], qid="comp_ax7"))
             ex.assume(z3.ForAll([x, x2], z3.Implies(z3.And(0 <= x2, x2 <= x, x <= m), acc(x2) <= acc(x)),
-                                patterns=[z3.MultiPattern(acc(x), acc(x2))]))
-            ex.assume(z3.ForAll([x], z3.Implies(z3.And(0 <= x, x <= m), z3.And(0 <= acc(x), acc(x) <= total)), patterns=[acc(x)]))
+                                patterns=[z3.MultiPattern(acc(x), acc(x2))], qid="comp_ax8"))
+            ex.assume(z3.ForAll([x], z3.Implies(z3.And(0 <= x, x <= m), z3.And(0 <= acc(x), acc(x) <= total)), patterns=[acc(x)], qid="comp_ax9"))
             if not g2.ifs:
-                ex.assume(z3.ForAll([x, y], cin(x, y) == y, patterns=[cin(x, y)]))
+                ex.assume(z3.ForAll([x, y], cin(x, y) == y, patterns=[cin(x, y)], qid="comp_ax10"))
             else:
-                ex.assume(z3.ForAll([x], cin(x, 0) == 0, patterns=[cin(x, 0)]))
+                ex.assume(z3.ForAll([x], cin(x, 0) == 0, patterns=[cin(x, 0)], qid="comp_ax11"))
                 ex.assume(z3.ForAll([x, y, y2], z3.Implies(z3.And(0 <= x, x < m, 0 <= y2, y == y2 + 1, y <= IL(x)),
                                                            cin(x, y) == cin(x, y2) + z3.If(C(x, y2), 1, 0)),
-                                    patterns=[z3.MultiPattern(cin(x, y), cin(x, y2))]))
+                                    patterns=[z3.MultiPattern(cin(x, y), cin(x, y2))], qid="comp_ax12"))
                 ex.assume(z3.ForAll([x, y], z3.Implies(z3.And(0 <= x, x < m, 0 <= y, y <= IL(x)),
                                                        z3.And(0 <= cin(x, y), cin(x, y) <= y, cin(x, y) <= cin(x, IL(x)))),
-                                    patterns=[cin(x, y)]))
+                                    patterns=[cin(x, y)], qid="comp_ax13"))
             ex.assume(z3.ForAll([j], z3.Implies(z3.And(0 <= j, j < total),
                                                 z3.And(0 <= oi(j), oi(j) < m, 0 <= ii(j), ii(j) < IL(oi(j)), C(oi(j), ii(j)),
                                                        pos(oi(j), ii(j)) == j)),
@@ -319,10 +319,10 @@ def comp2(ex, elt, gens, fr):
             ex.assume(z3.ForAll([x, y], z3.Implies(z3.And(0 <= x, x < m, 0 <= y, y < IL(x), C(x, y)),
                                                    z3.And(0 <= pos(x, y), pos(x, y) < total, oi(pos(x, y)) == x, ii(pos(x, y)) == y,
                                                           pos(x, y) == acc(x) + cin(x, y))),
-                                patterns=[pos(x, y)]))
+                                patterns=[pos(x, y)], qid="comp_ax14"))
             ex.assume(z3.ForAll([j, j2], z3.Implies(z3.And(0 <= j, j < j2, j2 < total),
                                                     z3.Or(oi(j) < oi(j2), z3.And(oi(j) == oi(j2), ii(j) < ii(j2)))),
-                                patterns=[z3.MultiPattern(oi(j), oi(j2))]))
+                                patterns=[z3.MultiPattern(oi(j), oi(j2))], qid="comp_ax15"))
             ex.assume(total >= 0)
             ex.assume(z3.Implies(total > 0, HINT(oi(0))))
             # the element term is a second trigger of the pos axiom (a valid pair has a position)
@@ -330,7 +330,7 @@ def comp2(ex, elt, gens, fr):
             if e0 is not None and g2.ifs:
                 ex.assume(z3.ForAll([x, y], z3.Implies(z3.And(0 <= x, x < m, 0 <= y, y < IL(x), C(x, y)),
                                                        z3.And(0 <= pos(x, y), pos(x, y) < total, oi(pos(x, y)) == x, ii(pos(x, y)) == y)),
-                                    patterns=[z3.substitute(e0, (a, x), (b, y))]))
+                                    patterns=[z3.substitute(e0, (a, x), (b, y))], qid="comp_ax16"))
             # trigger hints (tautologies over an uninterpreted predicate): the last element
             ex.assume(z3.Implies(z3.And(m > 0, IL(m - 1) > 0), z3.And(HINT(pos(m - 1, IL(m - 1) - 1)), HINT(acc(m - 1)))))
         jj = z3.Int(f"cj!{next(ex.cnt)}")
@@ -427,11 +427,22 @@ def dictcomp(ex, e, fr):
     a, b = z3.Int(f"a?{next(ex.cnt)}"), z3.Int(f"b?{next(ex.cnt)}")
     m = cnt(n)
     ex.assume(cnt(0) == 0)
-    ex.assume(z3.ForAll([a], z3.Implies(z3.And(0 <= a, a < n), cnt(a + 1) == cnt(a) + z3.If(C(a), 1, 0)), patterns=[cnt(a + 1)]))
-    ex.assume(z3.ForAll([a], z3.Implies(z3.And(0 <= a, a <= n), z3.And(0 <= cnt(a), cnt(a) <= a, cnt(a) <= m)), patterns=[cnt(a)]))
-    ex.assume(z3.ForAll([a], z3.Implies(z3.And(0 <= a, a < m), z3.And(0 <= srcf(a), srcf(a) < n, C(srcf(a)), rank(srcf(a)) == a)), patterns=[srcf(a)]))
-    ex.assume(z3.ForAll([a], z3.Implies(z3.And(0 <= a, a < n, C(a)), z3.And(0 <= rank(a), rank(a) < m, srcf(rank(a)) == a)), patterns=[rank(a)]))
-    ex.assume(z3.ForAll([a, b], z3.Implies(z3.And(0 <= a, a < b, b < m), srcf(a) < srcf(b)), patterns=[z3.MultiPattern(srcf(a), srcf(b))]))
+    # the same index structure as a filtering list comprehension (comp1): recurrences are instantiated only between two existing
+    # terms, so there is no matching loop
+    ex.assume(z3.ForAll([a, b], z3.Implies(z3.And(0 <= b, a == b + 1, a <= n), cnt(a) == cnt(b) + z3.If(C(b), 1, 0)),
+                        patterns=[z3.MultiPattern(cnt(a), cnt(b))], qid="comp_ax17"))
+    ex.assume(z3.ForAll([a, b], z3.Implies(z3.And(0 <= a, a <= b, b <= n), cnt(a) <= cnt(b)), patterns=[z3.MultiPattern(cnt(a), cnt(b))], qid="comp_ax18"))
+    ex.assume(z3.ForAll([a], z3.Implies(z3.And(0 <= a, a <= n), z3.And(0 <= cnt(a), cnt(a) <= a, cnt(a) <= cnt(n))), patterns=[cnt(a)], qid="comp_ax19"))
+    # split so that no instance creates a term that triggers the partner axiom again (for an index whose range is unknown the
+    # chain srcf(rank(srcf(...))) would otherwise never end)
+    ex.assume(z3.ForAll([a], z3.Implies(z3.And(0 <= a, a < m), z3.And(0 <= srcf(a), srcf(a) < n, C(srcf(a)))), patterns=[srcf(a)], qid="dcomp_src"))
+    ex.assume(z3.ForAll([a], z3.Implies(z3.And(0 <= a, a < m), z3.And(rank(srcf(a)) == a, cnt(srcf(a)) == a)),
+                        patterns=[rank(srcf(a)), cnt(srcf(a))], qid="dcomp_src_back"))
+    ex.assume(z3.ForAll([a], z3.Implies(z3.And(0 <= a, a < n, C(a)), z3.And(0 <= rank(a), rank(a) < m, rank(a) == cnt(a))),
+                        patterns=[rank(a)], qid="dcomp_rank"))
+    ex.assume(z3.ForAll([a], z3.Implies(z3.And(0 <= a, a < n, C(a)), srcf(rank(a)) == a), patterns=[srcf(rank(a))], qid="dcomp_rank_back"))
+    ex.assume(z3.ForAll([a, b], z3.Implies(z3.And(0 <= a, a < b, b < m), srcf(a) < srcf(b)), patterns=[z3.MultiPattern(srcf(a), srcf(b))], qid="comp_ax22"))
+    ex.assume(z3.And(0 <= m, m <= n))
     sd = it.meta.get("dict") if it.meta else None
     # source dict parts (for has/idx of the result)
     srcdict = ex.ev(g.iter.func.value, fr)
